@@ -13,6 +13,19 @@ func (p *Parser[G]) String() string {
 	return ebnf(p.typeNodes[p.rootType])
 }
 
+// startsWithNegation reports whether the EBNF printed for n starts with "~".
+func startsWithNegation(n node) bool {
+	switch n := n.(type) {
+	case *negation:
+		return true
+	case *capture:
+		return startsWithNegation(n.node)
+	case *group:
+		return startsWithNegation(n.expr)
+	}
+	return false
+}
+
 // endsWithModifier reports whether the EBNF printed for n ends in one of the modifiers ? * + !.
 func endsWithModifier(n node) bool {
 	switch n := n.(type) {
@@ -137,7 +150,15 @@ func buildEBNF(root bool, n node, seen map[node]bool, p *ebnfp, outp *[]*ebnfp) 
 
 	case *negation:
 		p.out += "~"
+		// "~" takes a single term: a negated negation needs parentheses, ~(~x), to stay valid EBNF.
+		nested := startsWithNegation(n.node)
+		if nested {
+			p.out += "("
+		}
 		buildEBNF(false, n.node, seen, p, outp)
+		if nested {
+			p.out += ")"
+		}
 
 	case *literal:
 		p.out += fmt.Sprintf("%q", n.s)
